@@ -219,14 +219,26 @@ func c05Run(t *testing.T, sub, keyName string, honestBlocks int, qb, tb time.Dur
 		alts := []alt{
 			{"A+1", func(s *CLSignature, m []*big.Int, _ **gabikeys.PublicKey) []*big.Int { s.A = pm(s.A, 1); return m }},
 			{"A=1", func(s *CLSignature, m []*big.Int, _ **gabikeys.PublicKey) []*big.Int { s.A = vfInt(1); return m }},
-			{"A=-A mod N", func(s *CLSignature, m []*big.Int, _ **gabikeys.PublicKey) []*big.Int { s.A = new(big.Int).Sub(pk.N, s.A); return m }},
+			{"A=-A mod N", func(s *CLSignature, m []*big.Int, _ **gabikeys.PublicKey) []*big.Int {
+				s.A = new(big.Int).Sub(pk.N, s.A)
+				return m
+			}},
 			{"e+2", func(s *CLSignature, m []*big.Int, _ **gabikeys.PublicKey) []*big.Int { s.E = pm(s.E, 2); return m }},
-			{"e=next prime", func(s *CLSignature, m []*big.Int, _ **gabikeys.PublicKey) []*big.Int { s.E = c05NextPrime(pm(s.E, 2), 2); return m }},
+			{"e=next prime", func(s *CLSignature, m []*big.Int, _ **gabikeys.PublicKey) []*big.Int {
+				s.E = c05NextPrime(pm(s.E, 2), 2)
+				return m
+			}},
 			{"v+1", func(s *CLSignature, m []*big.Int, _ **gabikeys.PublicKey) []*big.Int { s.V = pm(s.V, 1); return m }},
 			{"v-1", func(s *CLSignature, m []*big.Int, _ **gabikeys.PublicKey) []*big.Int { s.V = pm(s.V, -1); return m }},
 			{"v=0", func(s *CLSignature, m []*big.Int, _ **gabikeys.PublicKey) []*big.Int { s.V = vfInt(0); return m }},
-			{"KeyshareP=R0", func(s *CLSignature, m []*big.Int, _ **gabikeys.PublicKey) []*big.Int { s.KeyshareP = vfCopy(pk.R[0]); return m }},
-			{"KeyshareP=2", func(s *CLSignature, m []*big.Int, _ **gabikeys.PublicKey) []*big.Int { s.KeyshareP = vfInt(2); return m }},
+			{"KeyshareP=R0", func(s *CLSignature, m []*big.Int, _ **gabikeys.PublicKey) []*big.Int {
+				s.KeyshareP = vfCopy(pk.R[0])
+				return m
+			}},
+			{"KeyshareP=2", func(s *CLSignature, m []*big.Int, _ **gabikeys.PublicKey) []*big.Int {
+				s.KeyshareP = vfInt(2)
+				return m
+			}},
 			{"other public key", func(s *CLSignature, m []*big.Int, key **gabikeys.PublicKey) []*big.Int { *key = other.Pk; return m }},
 			{"message dropped", func(s *CLSignature, m []*big.Int, _ **gabikeys.PublicKey) []*big.Int {
 				// a trailing message 0 has exponent 0: the blocks (.., 0) and (..) are the same exponent vector, not a change
@@ -372,6 +384,12 @@ func c05Run(t *testing.T, sub, keyName string, honestBlocks int, qb, tb time.Dur
 	}
 }
 
-func TestVerifC05Toy(t *testing.T)   { c05Run(t, "toy", "toyA", vkit.Pick(2, 6), 240*time.Second, 1200*time.Second) }
-func TestVerifC05K1024(t *testing.T) { c05Run(t, "k1024", "k1024a", vkit.Pick(1, 3), 240*time.Second, 1200*time.Second) }
-func TestVerifC05K2048(t *testing.T) { c05Run(t, "k2048", "k2048", vkit.Pick(1, 2), 240*time.Second, 1200*time.Second) }
+func TestVerifC05Toy(t *testing.T) {
+	c05Run(t, "toy", "toyA", vkit.Pick(2, 6), 240*time.Second, 1200*time.Second)
+}
+func TestVerifC05K1024(t *testing.T) {
+	c05Run(t, "k1024", "k1024a", vkit.Pick(1, 3), 240*time.Second, 1200*time.Second)
+}
+func TestVerifC05K2048(t *testing.T) {
+	c05Run(t, "k2048", "k2048", vkit.Pick(1, 2), 240*time.Second, 1200*time.Second)
+}
